@@ -176,7 +176,37 @@ def shape_uv_in_step_rule(cx):
           'the stored shape gets new faces (append) only when neither this mesh nor the appended one carries a UV map - a UV map has exactly one triangle per face of the shape it belongs to; moving the vertices (transform_vertices) keeps the faces',
           found='; '.join(bad) or f'{n} face-list mutation site(s)')
 
+def boundary_table_rules(cx):
+    """per-boundary-vertex tables of the flattening: entry k belongs to boundary vertex k"""
+    CF_ = 'geom3::mesh::conformal'
+    b = cx.fn(f'{CF_}::boundary_edge_lengths')
+    if b:
+        IB = '(param i_bound)'
+        I = f'(itervar (range 0 (len {IB})))'
+        cx.expect_comp('EXPR', 'boundary_edge_lengths:outgoing', b, cx.retval(b), IB,
+                       f'(call *points::dist (index (param vertices) (index {IB} {I})) (index (param vertices) (index {IB} (rem (add 1 {I}) (len {IB})))))',
+                       'entry k is the length of the boundary edge LEAVING boundary vertex k (to its cyclic successor), one entry per boundary vertex: the target curvatures and the '
+                       'cumulative arc positions pair entry k with vertex k', where=b.file)
+    b = cx.fn(f'{CF_}::calc_extend_h')
+    if b:
+        EN = '(itervar (call Iterator::enumerate (param i_bound)))'
+        N = '(field 0 (call Mat::shape (param uvb)))'
+        PREV = f'(call Mat::index (param uvb) (agg tuple (0 (rem (sub (add {N} (field 0 {EN})) 1) {N})) (1 0)))'
+        NEXT = f'(call Mat::index (param uvb) (agg tuple (0 (rem (add 1 (field 0 {EN})) {N})) (1 0)))'
+        st = [m_ for m_ in b.mutations() if m_.kind == 'store' and m_.elem]
+        ok = len(st) == 1
+        if ok:
+            dag = b.dag()
+            tgt = simplify(dag.local(st[0].data['pl']['l'], st[0].bb, st[0].idx))
+            val = simplify(dag.rvalue(st[0].data['rv'], st[0].bb, st[0].idx))
+            ok = match(f'(call Mat::index_mut _ (agg tuple (0 (field 1 {EN})) (1 0)))', tgt) is not None and match(f'(mul 0.5 (sub {PREV} {NEXT}))', val) is not None
+        cx.ob('EXPR', 'calc_extend_h:central-difference', ok,
+              'h at boundary vertex k is 0.5 * (u[k-1] - u[k+1]) with cyclic neighbours, in THIS order (extend_curve negates it: the other order mirrors every flattening - lengths survive, orientation flips)',
+              where=b.file)
+
+
 def run(cx):
+    boundary_table_rules(cx)
     shape_uv_in_step_rule(cx)
     # the flattening consumes the edge tables of identify_edges: manifold guard, boundary-map entries, face_edges order (rule shared with C12)
     from rules.C12 import identify_edges_rules, boundary_loops_rules
